@@ -356,6 +356,227 @@ theorem prog (hm : ∀ g s, mu (callF g s) ≤ mu s) (hc : HC c r s0 callF) :
     simp only [execS, ho, Bool.false_eq_true, if_false]
     exact (hc g s hk.2.1 ho (Nat.le_of_lt hl) (Or.inl hl)).1
 
+theorem toG (hm : ∀ g s, mu (callF g s) ≤ mu s) (hc : HC c r s0 callF) (st : Stmt)
+    (ih : ∀ (a : A) (s : PS), mu s ≤ mu s0 → a.pr = false → Facts a s → s.oof = false → (abs c r st a).ok = true →
+      G (abs c r st a) s0 (execS callF st s) ∧ (execS callF st s).oof = false)
+    (a : A) (s : PS) (hG : G a s0 s) (ho : s.oof = false) (hk : (abs c r st a).ok = true) :
+    G (abs c r st a) s0 (execS callF st s) ∧ (execS callF st s).oof = false := by
+  rcases hG.2 with hl | ⟨hp, hf⟩
+  · exact ⟨G_of_lt _ (Nat.lt_of_le_of_lt (execS_mu_le callF hm st s) hl), prog c r s0 callF hm hc st a s hl ho hk⟩
+  · exact ih a s hG.1 hp hf ho hk
+
+/-- a step that is `advance` or `advance_with_error` -/
+theorem sound_bump (a : A) (s s' : PS) (hle : mu s ≤ mu s0) (hp : a.pr = false) (hf : Facts a s)
+    (h1 : mu s' ≤ mu s) (h2 : s.isEof = false → mu s' < mu s) (h3 : s'.ret = s.ret) (h4 : s'.cur = s.cur) :
+    G a.advd s0 s' := by
+  unfold A.advd
+  split
+  · rename_i hne
+    exact G_of_lt _ (Nat.lt_of_lt_of_le (h2 (hf.2.1 hne)) hle)
+  · refine ⟨Nat.le_trans h1 hle, Or.inr ⟨hp, ?_, ?_, ?_, ?_⟩⟩
+    · intro h; cases h
+    · intro h; cases h
+    · intro h; rw [h3]; exact hf.2.2.1 h
+    · intro h; rw [h4]; exact hf.2.2.2 h
+
+/-- a look whose answer is only stored or compared -/
+theorem sound_look (a : A) (s : PS) (n : Nat) (hle : mu s ≤ mu s0) (hp : a.pr = false) (hf : Facts a s) :
+    mu (look s n).2 < mu s0 ∨ ((look s n).1 = T_Eof ∧ mu (look s n).2 ≤ mu s0 ∧ Facts a.looked (look s n).2) := by
+  by_cases hd : Dead s
+  · have h := look_dead s n hd
+    refine Or.inr ⟨h.1, Nat.le_trans (mu_look_le s n) hle, fun _ => h.2, ?_, ?_, ?_⟩
+    · intro hh; rw [look_isEof]; exact hf.2.1 hh
+    · intro hh; rw [look_ret]; exact hf.2.2.1 hh
+    · intro hh; rw [look_cur]; exact hf.2.2.2 hh
+  · exact Or.inl (Nat.lt_of_lt_of_le (look_live s n hd) hle)
+
+theorem sound (hm : ∀ g s, mu (callF g s) ≤ mu s) (hc : HC c r s0 callF) :
+    ∀ (st : Stmt) (a : A) (s : PS), mu s ≤ mu s0 → a.pr = false → Facts a s → s.oof = false → (abs c r st a).ok = true →
+      G (abs c r st a) s0 (execS callF st s) ∧ (execS callF st s).oof = false := by
+  intro st
+  induction st with
+  | skip => intro a s hle hp hf ho _; exact ⟨⟨hle, Or.inr ⟨hp, hf⟩⟩, ho⟩
+  | seq x y ihx ihy =>
+    intro a s hle hp hf ho hk
+    have h1 := ihx a s hle hp hf ho (abs_ok_mono c r y _ hk)
+    exact toG c r s0 callF hm hc y ihy _ _ h1.1 h1.2 hk
+  | adv => intro a s hle hp hf ho _; exact ⟨sound_bump s0 a s _ hle hp hf (mu_bump_le s) (mu_bump_lt s) rfl rfl, ho⟩
+  | advErr m => intro a s hle hp hf ho _; exact ⟨sound_bump s0 a s _ hle hp hf (mu_bump_le s) (mu_bump_lt s) rfl rfl, ho⟩
+  | advErrDbg m => intro a s hle hp hf ho _; exact ⟨sound_bump s0 a s _ hle hp hf (mu_bump_le s) (mu_bump_lt s) rfl rfl, ho⟩
+  | err m => intro a s hle hp hf ho _; exact ⟨⟨hle, Or.inr ⟨hp, hf⟩⟩, ho⟩
+  | expect k =>
+    intro a s hle hp hf ho hk
+    simp only [abs] at hk ⊢
+    split at hk
+    · simp [A.bad] at hk
+    · rename_i hne
+      rw [if_neg hne]
+      refine ⟨?_, by rw [execS, expectK_oof]; exact ho⟩
+      by_cases hd : Dead s
+      · have h := expectK_dead s k hd hne
+        refine ⟨Nat.le_trans (mu_expectK_le s k) hle, Or.inr ⟨hp, fun _ => h.1, ?_, ?_, ?_⟩⟩
+        · intro hh; rw [execS, h.2]; exact hf.2.1 hh
+        · intro hh; rw [execS, expectK_ret]; exact hf.2.2.1 hh
+        · intro hh; rw [execS, expectK_cur]; exact hf.2.2.2 hh
+      · exact G_of_lt _ (Nat.lt_of_lt_of_le (expectK_live s k hd) hle)
+  | eat k =>
+    intro a s hle hp hf ho hk
+    simp only [abs] at hk ⊢
+    split at hk
+    · simp [A.bad] at hk
+    · rename_i hne
+      rw [if_neg hne]
+      have ho' : (execS callF (.eat k) s).oof = false := by
+        simp only [execS]; split <;> (show (look s 0).2.oof = false; rw [look_oof]; exact ho)
+      refine ⟨?_, ho'⟩
+      rcases sound_look s0 a s 0 hle hp hf with hl | ⟨he, hle', hf'⟩
+      · refine G_of_lt _ (Nat.lt_of_le_of_lt ?_ hl)
+        simp only [execS]; split
+        · exact (show mu (doAdvance (look s 0).2) ≤ _ from mu_doAdvance_le _)
+        · exact Nat.le_refl _
+      · simp only [execS]
+        rw [if_neg (by rw [he]; exact fun e => hne e.symm)]
+        exact ⟨hle', Or.inr ⟨hp, fun _ => hf'.1 rfl, hf'.2.1, fun _ => rfl, hf'.2.2.2⟩⟩
+  | ifAt k t e iht ihe =>
+    intro a s hle hp hf ho hk
+    simp only [abs] at hk ⊢
+    split at hk
+    · simp [A.bad] at hk
+    · rename_i hne
+      rw [if_neg hne]
+      have ho' : (look s 0).2.oof = false := by rw [look_oof]; exact ho
+      rcases sound_look s0 a s 0 hle hp hf with hl | ⟨he, hle', hf'⟩
+      · simp only [execS]; split
+        · exact ⟨G_of_lt _ (Nat.lt_of_le_of_lt (execS_mu_le callF hm t _) hl), prog c r s0 callF hm hc t _ _ hl ho' (meet_ok hk).1⟩
+        · exact ⟨G_of_lt _ (Nat.lt_of_le_of_lt (execS_mu_le callF hm e _) hl), prog c r s0 callF hm hc e _ _ hl ho' (meet_ok hk).2⟩
+      · simp only [execS]
+        rw [if_neg (by rw [he]; exact fun e' => hne e'.symm)]
+        have := ihe a.looked _ hle' hp hf' ho' (meet_ok hk).2
+        exact ⟨G_weaken this.1 (le_meet_right _ _), this.2⟩
+  | ifAtAny ks t e iht ihe =>
+    intro a s hle hp hf ho hk
+    simp only [abs] at hk ⊢
+    split at hk
+    · simp [A.bad] at hk
+    · rename_i hne
+      rw [if_neg hne]
+      have ho' : (look s 0).2.oof = false := by rw [look_oof]; exact ho
+      rcases sound_look s0 a s 0 hle hp hf with hl | ⟨he, hle', hf'⟩
+      · simp only [execS]; split
+        · exact ⟨G_of_lt _ (Nat.lt_of_le_of_lt (execS_mu_le callF hm t _) hl), prog c r s0 callF hm hc t _ _ hl ho' (meet_ok hk).1⟩
+        · exact ⟨G_of_lt _ (Nat.lt_of_le_of_lt (execS_mu_le callF hm e _) hl), prog c r s0 callF hm hc e _ _ hl ho' (meet_ok hk).2⟩
+      · simp only [execS]
+        rw [if_neg (by rw [he]; exact hne)]
+        have := ihe a.looked _ hle' hp hf' ho' (meet_ok hk).2
+        exact ⟨G_weaken this.1 (le_meet_right _ _), this.2⟩
+  | ifEof t e iht ihe =>
+    intro a s hle hp hf ho hk
+    simp only [abs] at hk ⊢
+    simp only [execS]
+    cases he : s.isEof with
+    | true =>
+      have hne : a.ne = false := by
+        cases h : a.ne; rfl; have := hf.2.1 h; rw [he] at this; cases this
+      rw [hne] at hk ⊢
+      simp only [Bool.false_eq_true, ↓reduceIte] at hk ⊢
+      have := iht a s hle hp hf ho (meet_ok hk).1
+      exact ⟨G_weaken this.1 (le_meet_left _ _), this.2⟩
+    | false =>
+      simp only [Bool.false_eq_true, ↓reduceIte]
+      have := ihe { a with ne := true } s hle hp ⟨hf.1, fun _ => he, hf.2.2.1, hf.2.2.2⟩ ho (meet_ok hk).2
+      exact ⟨G_weaken this.1 (le_meet_right _ _), this.2⟩
+  | peek =>
+    intro a s hle hp hf ho _
+    refine ⟨?_, by show (look s 0).2.oof = false; rw [look_oof]; exact ho⟩
+    rcases sound_look s0 a s 0 hle hp hf with hl | ⟨he, hle', hf'⟩
+    · exact G_of_lt _ hl
+    · exact ⟨hle', Or.inr ⟨hp, fun _ => hf'.1 rfl, hf'.2.1, hf'.2.2.1, fun _ => he⟩⟩
+  | nth i =>
+    intro a s hle hp hf ho _
+    refine ⟨?_, by show (look s i).2.oof = false; rw [look_oof]; exact ho⟩
+    rcases sound_look s0 a s i hle hp hf with hl | ⟨he, hle', hf'⟩
+    · exact G_of_lt _ hl
+    · exact ⟨hle', Or.inr ⟨hp, fun _ => hf'.1 rfl, hf'.2.1, hf'.2.2.1, fun _ => he⟩⟩
+  | nthIdx =>
+    intro a s hle hp hf ho _
+    refine ⟨?_, by show (look s s.idx).2.oof = false; rw [look_oof]; exact ho⟩
+    rcases sound_look s0 a s s.idx hle hp hf with hl | ⟨he, hle', hf'⟩
+    · exact G_of_lt _ hl
+    · exact ⟨hle', Or.inr ⟨hp, fun _ => hf'.1 rfl, hf'.2.1, hf'.2.2.1, fun _ => he⟩⟩
+  | ifCur ks t e iht ihe =>
+    intro a s hle hp hf ho hk
+    simp only [abs] at hk ⊢
+    simp only [execS]
+    cases hin : ks.contains s.cur with
+    | true =>
+      have hcond : (a.cv && !ks.contains T_Eof) = false := by
+        cases hcv : a.cv
+        · rfl
+        · have := hf.2.2.2 hcv; rw [this] at hin; rw [hin]; rfl
+      rw [hcond] at hk ⊢
+      simp only [Bool.false_eq_true, ↓reduceIte] at hk ⊢
+      have := iht a s hle hp hf ho (meet_ok hk).1
+      exact ⟨G_weaken this.1 (le_meet_left _ _), this.2⟩
+    | false =>
+      simp only [Bool.false_eq_true, ↓reduceIte]
+      have := ihe a s hle hp hf ho (meet_ok hk).2
+      exact ⟨G_weaken this.1 (le_meet_right _ _), this.2⟩
+  | ifRet t e iht ihe =>
+    intro a s hle hp hf ho hk
+    simp only [abs] at hk ⊢
+    simp only [execS]
+    cases hr : s.ret with
+    | true =>
+      have hnr : a.nr = false := by
+        cases h : a.nr; rfl; have := hf.2.2.1 h; rw [hr] at this; cases this
+      rw [hnr] at hk ⊢
+      simp only [Bool.false_eq_true, ↓reduceIte] at hk ⊢
+      have := iht a s hle hp hf ho (meet_ok hk).1
+      exact ⟨G_weaken this.1 (le_meet_left _ _), this.2⟩
+    | false =>
+      simp only [Bool.false_eq_true, ↓reduceIte]
+      have := ihe a s hle hp hf ho (meet_ok hk).2
+      exact ⟨G_weaken this.1 (le_meet_right _ _), this.2⟩
+  | setRet b =>
+    intro a s hle hp hf ho _
+    refine ⟨⟨hle, Or.inr ⟨hp, hf.1, hf.2.1, ?_, hf.2.2.2⟩⟩, ho⟩
+    intro h; cases b
+    · rfl
+    · simp [abs] at h
+  | setIdx n => intro a s hle hp hf ho _; exact ⟨⟨hle, Or.inr ⟨hp, hf⟩⟩, ho⟩
+  | incIdx => intro a s hle hp hf ho _; exact ⟨⟨hle, Or.inr ⟨hp, hf⟩⟩, ho⟩
+  | decIdx => intro a s hle hp hf ho _; exact ⟨⟨hle, Or.inr ⟨hp, hf⟩⟩, ho⟩
+  | ifIdxZero t e iht ihe =>
+    intro a s hle hp hf ho hk
+    simp only [abs] at hk ⊢
+    simp only [execS]
+    split
+    · have := iht a s hle hp hf ho (meet_ok hk).1
+      exact ⟨G_weaken this.1 (le_meet_left _ _), this.2⟩
+    · have := ihe a s hle hp hf ho (meet_ok hk).2
+      exact ⟨G_weaken this.1 (le_meet_right _ _), this.2⟩
+  | node k b ih => intro a s hle hp hf ho hk; exact ih a { s with out := [] } hle hp hf ho hk
+  | nodeReg b ih => intro a s hle hp hf ho hk; exact ih a { s with out := [] } hle hp hf ho hk
+  | setKind k => intro a s hle hp hf ho _; exact ⟨⟨hle, Or.inr ⟨hp, hf⟩⟩, ho⟩
+  | markLast => intro a s hle hp hf ho _; exact ⟨⟨hle, Or.inr ⟨hp, hf⟩⟩, ho⟩
+  | wrap k b ih => intro a s hle hp hf ho hk; exact ih a { s with out := [] } hle hp hf ho hk
+  | call g =>
+    intro a s hle hp hf ho hk
+    simp only [abs, Bool.and_eq_true, hp, Bool.false_or, decide_eq_true_eq, Bool.false_eq_true, if_false] at hk ⊢
+    simp only [execS, ho, Bool.false_eq_true, if_false]
+    have h := hc g s hk.2.1 ho hle (Or.inr hk.2.2)
+    refine ⟨?_, h.1⟩
+    have hle' : mu (callF g s) ≤ mu s0 := Nat.le_trans (hm g s) hle
+    by_cases hpn : a.pk = true ∧ a.ne = true
+    · simp only [hpn, and_self, if_true]
+      have hg := h.2 (hf.1 hpn.1) (hf.2.1 hpn.2)
+      refine ⟨hle', ?_⟩
+      rcases hg.2 with hl | hr
+      · exact Or.inl (Nat.lt_of_lt_of_le hl hle)
+      · exact Or.inr hr
+    · simp only [hpn, if_false]
+      refine ⟨hle', Or.inr ⟨rfl, ?_, ?_, ?_, ?_⟩⟩ <;> (intro x; exact Bool.noConfusion x)
+
 end sound
 
 end Goml.Grammar
